@@ -125,7 +125,7 @@ def rebind_functions(facts, pin):
         return s
 
     def f(d):
-        for key in ("fn", "resolved", "path", "root", "parent"):
+        for key in ("fn", "resolved", "path", "root", "parent", "def"):
             if key in d and isinstance(d[key], str):
                 nv = fix(d[key])
                 if nv != d[key]:
